@@ -252,6 +252,38 @@ def block_in_body_family():
     return out
 
 
+WATCH_IN_MACRO = {"Mark: a": ["Macro: A", "    Watch: X > 1", "        Mark: w", "    Mark: a", "Call macro: A", "Call macro: A", "Mark: end"],
+                  "Wait": ["Macro: A", "    Watch: X > 1", "        Mark: w", "    Wait: 0.3s", "Call macro: A", "Mark: mid", "Call macro: A", "Mark: end"],
+                  "three calls": ["Macro: A", "    Watch: X > 1", "        Mark: w", "    Mark: a", "Call macro: A", "Call macro: A", "Call macro: A"]}
+
+
+def check_watch_in_macro(item):
+    """A macro whose body holds a Watch, called two or three times: every call arms the Watch afresh - it fires in every call while
+    X > 1 holds throughout (w once per call), never while X stays 0, and only in the first call when X drops right after the
+    first w."""
+    name, traj = item
+    lines = WATCH_IN_MACRO[name]
+    calls = sum(1 for ln in lines if ln.startswith("Call macro"))
+    run = Run("\n".join(lines), observe=())
+    x = 2.0 if traj.startswith("true") else 0.0
+    for t in range(70):
+        run.set_input("X", x)
+        ob = run.tick()
+        if traj == "true-then-false" and "w" in run.marks():
+            x = 0.0
+    marks = run.marks()
+    errors = list(run.error_events)
+    run.cleanup()
+    want = {"true": calls, "false": 0, "true-then-false": 1}[traj]
+    out = []
+    if errors:
+        out.append((f"C41:watch-in-macro-body:error:{traj}", f"{lines}: X {traj}: method error {errors[0][1:]}"))
+    elif marks.count("w") != want:
+        out.append((f"C41:watch-in-macro-body:{traj}:fired-{marks.count('w')}-times-in-{calls}-calls",
+                    f"{lines} with X {traj}: the Watch body ran {marks.count('w')} times, expected {want} (marks {marks})"))
+    return out
+
+
 def run(ctx):
     n = 4 if ctx.quick else 5
     forests = ([f for f in pgen.programs(KINDS, n, depth=2) if valid(f)] + redefinition_family(ctx) + nested_recursion_family()
@@ -267,6 +299,11 @@ def run(ctx):
         ends[st["ref_end"]] += 1
         for sig, what in viol:
             ctx.violation(sig, what, {"lines": pgen.render(f)})
+    wim = [(name, traj) for name in WATCH_IN_MACRO for traj in ("true", "false", "true-then-false")]
+    for item in wim:
+        for sig, what in check_watch_in_macro(item):
+            ctx.violation(sig, what, {"watch_in_macro": list(item)})
+        execs += 1
     if ends["recursion"] < 10 or nontrivial < 50:
         raise HarnessError(f"vacuous corpus: {dict(ends)}")
     ctx.coverage.update(
@@ -280,6 +317,10 @@ def run(ctx):
 
 
 def replay(data):
+    if "watch_in_macro" in data:
+        out = check_watch_in_macro(tuple(data["watch_in_macro"]))
+        print("program:", WATCH_IN_MACRO[data["watch_in_macro"][0]], "X:", data["watch_in_macro"][1], "->", out or "as expected")
+        return out
     lines = [(f"L{i}", c) for i, c in enumerate(data["lines"])]
     ref = refsem.reference(lines)
     run = execute(lines, horizon=HORIZON, observe=("mstate", "tags"))
